@@ -43,6 +43,7 @@ func (e *Engine) verifyBlock(blk *Block) (u *Unit) {
 	alloc0 := c.fresh("alloc0", SInt)
 	c.assert(Ge(alloc0, IntLit(maxGlobals)))
 	st.Alloc = alloc0
+	c.alloc0 = alloc0
 	f := &Frame{ctx: c, fn: fn, vals: map[ssa.Value][]Term{}, block: blk, top: true, label: name}
 	// parameters
 	for i, p := range fn.Params {
@@ -107,7 +108,11 @@ func (e *Engine) verifyBlock(blk *Block) (u *Unit) {
 		all := append(append([][]Term{}, f.argVals...), resVals...)
 		for _, cl := range blk.Post {
 			t := c.evalSpecFn(cl.Fn, all, r.st, snapOf(f.entry), f)[0]
-			c.addObl(&Obligation{Name: fmt.Sprintf("%s/post%d@ret%d", name, cl.Index, ri), Kind: "post", Fn: name, Pos: e.ld.Prog.Fset.Position(r.pos), Text: "ensures " + cl.Text, Reach: r.st.Reach, Goal: t, Clause: cl})
+			rpos := r.pos
+			if !rpos.IsValid() {
+				rpos = fn.Pos()
+			}
+			c.addObl(&Obligation{Name: fmt.Sprintf("%s/post%d@ret%d", name, cl.Index, ri), Kind: "post", Fn: name, Pos: e.ld.Prog.Fset.Position(rpos), Text: "ensures " + cl.Text, Reach: r.st.Reach, Goal: t, Clause: cl})
 		}
 	}
 	if len(f.rets) == 0 && len(blk.Post) > 0 {
